@@ -328,7 +328,16 @@ func cmdRun(args []string) int {
 	for i := 0; i < nb; i++ {
 		wg.Add(1)
 		o := &childOutcome{idx: i}
-		go runChild(o, self, []string{"-batch", fmt.Sprint(i), "-nbatches", fmt.Sprint(nb)}, nil, watchdog)
+		// a quarter of the workers run with GOMAXPROCS=1 and a quarter with 2: code that chooses a path by
+		// the number of processors (parallel fast paths) is then driven down both
+		var env []string
+		switch i % 4 {
+		case 1:
+			env = []string{"GOMAXPROCS=1"}
+		case 3:
+			env = []string{"GOMAXPROCS=2"}
+		}
+		go runChild(o, self, []string{"-batch", fmt.Sprint(i), "-nbatches", fmt.Sprint(nb)}, env, watchdog)
 	}
 	wg.Wait()
 
